@@ -56,6 +56,12 @@ def run(ctx):
                                   {"token_kinds": t, "fail_at": k, "implementation": i, "unfailing_run": " ".join(uevs) + " | " + ures, "model_of_code": m})
     # ---- value passing: ParseAndEvaluate (every choice of the failing invocation of the evaluation function) and ParseAndBuildAST
     vcases = []
+    # long sentences: more than a thousand values are alive on the evaluation stack or pass through it (alternatives and
+    # juxtapositions of one rule stay on the stack until the rule ends; many rules pass through)
+    from .c04 import big_cases
+    for t in big_cases(True)[:4] + big_cases(True)[-3:]:
+        vcases.append((t, -1))
+        vcases.append((t, 1100))
     for t in base:
         r = rd.recognise(t)
         nprod = sum(1 for e in (r[1] if r[0] == "ACCEPT" else r[2]) if e[0] == "P")
